@@ -7,8 +7,8 @@ the Go-subset → Lean translator (slices as arrays, loops as `forIn`, panics as
 `Option String`).  For ALL shapes the regenerated loops return exactly the matrices of
 `RSV.Model.Builders` (`rowsOfMat` lists the entries of a model matrix as bytes), i.e. the matrices the
 MDS / encoding theorems are about.  `xByte i` is `byte(i)` as a field element.
-(`buildMatrix` — Vandermonde times the inverse of its top square — and `matrix.Invert` are compared with
-the model by the executable `RSV.Model.genBuildMatrixAgrees` / `genInvertAgrees`.)
+(`buildMatrix` — Vandermonde times the inverse of its top square — and `matrix.Invert`: see `RSV.Props.C17buildMatrix`,
+`RSV.Props.C17invert`; the executable `RSV.Model.genBuildMatrixAgrees` / `genInvertAgrees` run them next to the model.)
 -/
 namespace RSV.Props.C17matrix
 open RSV RSV.Gen RSV.Model
